@@ -635,9 +635,26 @@ class Sym:
             return bool(c[1])
         if c[0] in ('obj', 'addr'):
             return True
+        # a == b is b == a, and a != b its negation
+        alts = [(c, False)]
+        if c[0] == 'op' and len(c) == 4 and c[1] in ('==', '!='):
+            other = '!=' if c[1] == '==' else '=='
+            alts += [((c[0], c[1], c[3], c[2]), False), ((c[0], other, c[2], c[3]), True), ((c[0], other, c[3], c[2]), True)]
+        facts_ = []
+
+        def expand(cc, val):
+            facts_.append((cc, val))
+            if isinstance(cc, tuple) and len(cc) == 4 and cc[0] == 'op' and ((cc[1] == '&&' and val) or (cc[1] == '||' and not val)):
+                expand(cc[2], val)
+                expand(cc[3], val)
+            elif isinstance(cc, tuple) and len(cc) == 3 and cc[0] == 'un' and cc[1] == '!':
+                expand(cc[2], not val)
         for (cc, val) in st.conds + st.known:
-            if cc == c:
-                return val
+            expand(cc, val)
+        for (cc, val) in facts_:
+            for alt, flip in alts:
+                if cc == alt:
+                    return (not val) if flip else val
             if cc == ('un', '!', c):
                 return not val
             if c == ('un', '!', cc):
@@ -656,6 +673,24 @@ class Sym:
                 return False
             if a is True and b is True:
                 return True
+            # a conjunction that contains a literal and its negation (a == b together with b != a) is false
+            lits = []
+
+            def flat(t, pos=True):
+                if isinstance(t, tuple) and len(t) == 4 and t[0] == 'op' and t[1] == '&&' and pos:
+                    flat(t[2]); flat(t[3])
+                elif isinstance(t, tuple) and len(t) == 3 and t[0] == 'un' and t[1] == '!':
+                    flat(t[2], not pos)
+                elif isinstance(t, tuple) and len(t) == 4 and t[0] == 'op' and t[1] in ('==', '!='):
+                    x, y = sorted((t[2], t[3]), key=repr)
+                    lits.append((('eq', x, y), pos == (t[1] == '==')))
+                else:
+                    lits.append((t, pos))
+            flat(c)
+            seen = {}
+            for l, v in lits:
+                if seen.setdefault(l, v) != v:
+                    return False
         if c[0] == 'op' and c[1] == '||':
             a, b = self.truth(c[2], st), self.truth(c[3], st)
             if a is True or b is True:
@@ -839,6 +874,15 @@ class Sym:
                 if 'cv' in e and v[0] != 'k':
                     v = ('k', int(e['cv']), 'int')
                 out.append((s, v))
+            elif ck == 'Dynamic' and isinstance(v, tuple) and v[0] == 'addr' and isinstance(v[1], tuple) and v[1][0] == 'obj' and v[1][1] in s.heap:
+                # dynamic_cast on an object whose class is known: the pointer when that class is, or derives from, the
+                # target class; null otherwise
+                tgt = (e.get('t') or '').replace('const ', '').rstrip('*& ').strip()
+                cls = s.heap[v[1][1]].cls
+                if tgt in self.F.rec and cls in self.F.rec:
+                    out.append((s, v if (cls == tgt or self.F.derives_from(cls, tgt)) else NULL))
+                else:
+                    out.append((s, ('castto', e.get('t'), v)))
             else:
                 out.append((s, ('castto', e.get('t'), v)))
         return out
